@@ -1,6 +1,7 @@
 package main
 
 import (
+	"time"
 	"fmt"
 	"reflect"
 	"sync/atomic"
@@ -11,8 +12,16 @@ import (
 
 // marker functions registered as custom validators: they always write one clause naming
 // themselves, so the function a rule name resolved to is visible in the error.
+// slowMarker: a per-call function that takes its time (a look-up, a remote check) before it answers
+const slowMarker = "SLOW"
+
+var slowDur = 400 * time.Millisecond
+
 func markerFn(marker string) valid.CommonValidFn {
 	return func(errBuf *strings.Builder, validName, objName, fieldName string, tv reflect.Value) {
+		if marker == slowMarker {
+			time.Sleep(slowDur)
+		}
 		errBuf.WriteString(valid.GetJoinValidErrStr(objName, fieldName, "", "custom:"+marker+":"+validName))
 	}
 }
